@@ -3,6 +3,9 @@ from gen import server_hist
 from props import srvprop, c01
 
 
+INSERTED = {}      # id(history ops) -> (offender transport, indices of the injected messages)
+
+
 def hostile(rng, cfg, ops):
     """Interleave a malformed stream from one offender with the bystanders' traffic."""
     eios = [o[1] for o in ops if o[0] == 'eio_connect']
@@ -10,6 +13,8 @@ def hostile(rng, cfg, ops):
         return cfg, ops
     off = eios[0]
     out = []
+    marks = set()
+    INSERTED[id(out)] = (off, marks)
     for o in ops:
         out.append(o)
         if rng.random() < 0.45:
@@ -19,8 +24,130 @@ def hostile(rng, cfg, ops):
             wire = c01.mutate(rng, base) if rng.random() < 0.8 else base
             if rng.random() < 0.12:
                 wire = rng.choice([b'\x00\x01', b'2["ev"]', '', 'true', '1.0', '[2]', '{"x":1}', '"0"', 'null'])
+            marks.add(len(out))
             out.append(('msg', off, server_hist.eio_decode(wire)))
     return cfg, out
+
+
+def hostile_msgpack(rng, cfg, ops):
+    """The msgpack counterpart: blobs that are not exactly one well-formed packet."""
+    import msgpack
+    eios = [o[1] for o in ops if o[0] == 'eio_connect']
+    if not eios:
+        return cfg, ops
+    off = eios[0]
+    out = []
+    marks = set()
+    INSERTED[id(out)] = (off, marks)
+    good = [msgpack.dumps({'type': 2, 'nsp': '/', 'data': ['ev', 1], 'id': 4}),
+            msgpack.dumps({'type': 2, 'nsp': '/chat', 'data': ['msg', {'to': 'x', 'amount': 1000}]}),
+            msgpack.dumps({'type': 3, 'nsp': '/', 'data': ['x'], 'id': 1}),
+            msgpack.dumps({'type': 1, 'nsp': '/a'}), msgpack.dumps({'type': 0, 'nsp': '/chat', 'data': {}})]
+    for o in ops:
+        out.append(o)
+        if rng.random() < 0.4:
+            g = rng.choice(good)
+            blob = rng.choice([g[:-2], g + b'\x01', g + rng.choice(good), g + g, b'\xc1', bytes([rng.randrange(256) for _ in range(5)]),
+                               msgpack.dumps([1, 2]), msgpack.dumps(7), msgpack.dumps({'nsp': '/'}), msgpack.dumps({'type': 2}),
+                               msgpack.dumps({'type': 9, 'nsp': '/', 'data': None}), msgpack.dumps({'type': 5, 'nsp': '/', 'data': ['ev']}),
+                               g])
+            marks.add(len(out))
+            out.append(('msg', off, blob))
+    return cfg, out
+
+
+def bystander_trace(cfg, ops, off, marks, mode, without):
+    """What the clients other than the offender observe: effects of every operation that does not
+    originate from the offender, restricted to the other transports / sessions, with session ids
+    renamed by first appearance (the offender's CONNECT attempts consume ids)."""
+    import re
+    from drivers import srv
+    keep = [i for i in range(len(ops)) if not (without and i in marks)]
+    results, _ = srv.run_history(cfg, [ops[i] for i in keep], mode)
+    # session ids living on the offender's transport
+    mine = set()
+    for effs, _t in results:
+        for e in effs:
+            if e[0] == 'Out' and e[1] == off and isinstance(e[2], str) and e[2][:1] == '0':
+                m = re.search(r'"sid":"(S\d+)"', e[2])
+                if m:
+                    mine.add(m.group(1))
+            if e[0] == 'Out' and e[1] == off and isinstance(e[2], dict) and e[2].get('type') == 0 and \
+                    isinstance(e[2].get('data'), dict) and 'sid' in e[2]['data']:
+                mine.add(e[2]['data']['sid'])
+    names = {}
+
+    def ren(v):
+        if isinstance(v, str):
+            def sub(m):
+                return names.setdefault(m.group(0), 'B%d' % len(names))
+            return re.sub(r'S\d+', sub, v) if re.search(r'S\d+', v) else v
+        if isinstance(v, (list, tuple)):
+            return [ren(x) for x in v]
+        if isinstance(v, dict):
+            return {ren(a): ren(b) for a, b in v.items()}
+        return v
+
+    def mentions_mine(v):
+        txt = repr(v)
+        return any(re.search(r'\b%s\b' % sid, txt) for sid in mine)
+    issued = sorted(set(re.findall(r'sid.{1,5}?(S\d+)', repr([e for effs, _t in results for e in effs if e[0] == 'Out']))))
+    trace = [['issued', issued]]
+    for i, (effs, _t) in zip(keep, results):
+        o = ops[i]
+        if o[0] in ('msg', 'msg_nested', 'msg_sd', 'eio_connect', 'close') and o[1] == off:
+            continue
+        if mentions_mine(o):
+            continue        # an API call addressed to the offender's own session
+        view = []
+        for e in effs:
+            if e[0] == 'Out' and e[1] == off:
+                continue
+            if mentions_mine(e):
+                continue
+            view.append(ren([e[0]] + [x for x in e[1:]]))
+        trace.append(ren([i if not without else i, view])[1])
+    return trace
+
+
+def bystander_check(chk, hs, sample):
+    """The bystanders' view with and without the offender's injected messages must be the same
+    (a property of the implementation alone; compared inside Coq)."""
+    from vt import coqio
+    from vt.coqio import pv, clist
+    cases, meta = [], []
+    for i in sample:
+        cfg, ops = hs[i]
+        if id(ops) not in INSERTED:
+            continue
+        off, marks = INSERTED[id(ops)]
+        for mode in ('sync', 'async'):
+            try:
+                a = bystander_trace(cfg, ops, off, marks, mode, False)
+                b = bystander_trace(cfg, ops, off, marks, mode, True)
+                if a[0] != b[0]:
+                    # an injected message was itself an accepted CONNECT: it consumed a session id, so the
+                    # positional ids used by the scripted API calls address different clients; not comparable
+                    chk.dist('bystander comparison skipped (injected CONNECT accepted)')
+                    continue
+                a, b = a[1:], b[1:]
+                cases.append('(PGen 12%%N %s %s)' % (clist([pv(x) for x in a]), clist([pv(x) for x in b])))
+                meta.append((i, mode))
+            except Exception as e:
+                chk.broken_obligation('bystander comparison failed on history %d: %r' % (i, e))
+    if not cases:
+        return
+    codes, errors = coqio.eval_cases('c12_byst', 'From VT Require Import Check.C14Check.', '', 'c14case', cases, 'c14_eval', shard=40)
+    for e in errors:
+        chk.broken_obligation('case evaluation failed: ' + e)
+    chk.extra['bystander_comparisons'] = len(cases)
+    for idx, code in sorted(codes.items()):
+        i, mode = meta[idx]
+        cfg, ops = hs[i]
+        chk.violation('bystander-trace-depends-on-offender',
+                      'what the other clients observe changes when the offender\'s malformed messages are removed (%s server)' % mode,
+                      {'py': repr((cfg, ops, mode)), 'offender': INSERTED[id(ops)][0], 'injected': sorted(INSERTED[id(ops)][1])})
+        break
 
 
 def nontrivial(cfg, ops, results):
@@ -36,23 +163,38 @@ def run(chk):
     k.w.update({'junk': 3, 'binary': 1.5, 'event': 4, 'ack': 1.5, 'emit_cb': 1.5, 'session': 1})
     chk.assumptions = ["the offender's own connection may be left unusable (outside the claim)",
                        'msgpack serializer: see MsgPack notes in DESIGN.md (decode is the library oracle)']
-    srvprop.run(chk, 'c12', k, 110, 1500,
-                'histories of well-formed traffic of 2-5 clients with a malformed stream (grammar mutations of valid frames, '
-                'engine.io-level JSON payloads, stray binary) injected from one offender after ~45% of the operations; the Coq '
-                'checker judges every offender message: no packet to another transport, no handler call on behalf of another '
-                'sid, no foreign callback, other clients\' state projection unchanged, undecodable input reaches no handler; '
-                'non-trivial = >= 2 rejected messages and >= 2 transports; distinct by effect signature',
-                nontrivial, tweak=hostile)
-
-
+    from props import srvcommon, c03
+    chk.rule = ('histories of well-formed traffic of 2-5 clients with a malformed stream (grammar mutations of valid frames, '
+                'engine.io-level JSON payloads, stray binary; msgpack: truncated / concatenated / trailing-byte / mistyped blobs) '
+                'injected from one offender after ~45% of the operations; the Coq checker judges every offender message: no packet '
+                'to another transport, no handler call on behalf of another sid, no foreign callback, other clients\' state '
+                'projection unchanged, undecodable input reaches no handler; additionally the bystanders\' view of the run is '
+                'compared with the run without the injected messages; non-trivial = >= 2 rejected messages and >= 2 transports; '
+                'distinct by effect signature')
+    chk.trusted_base = list(srvprop.TRUSTED) + ['msgpack.loads / dumps as oracles (frames compared as the packed dict)']
+    chk.prove()
+    rng = chk.rng
+    hs = []
+    for _ in range(1500 if chk.thorough else 110):
+        cfg, ops = server_hist.gen_history(rng, k)
+        hs.append(hostile(rng, cfg, ops))
+    bad = srvcommon.run_histories(chk, 'c12', hs, nontrivial=nontrivial)
+    c03.report(chk, 'c12', hs, bad)
     # the same with the msgpack serializer (frames are msgpack blobs; the msgpack library is an oracle)
-    if not chk.broken:
-        k2 = server_hist.Knobs(n_ops=22, refuse=0.1, actions=0.0, serializer='msgpack')
-        k2.w.update({'junk': 4, 'binary': 1.5, 'event': 4, 'ack': 1.5, 'emit_cb': 1.5, 'session': 1})
-        from props import srvcommon, c03
-        hs = [server_hist.gen_history(chk.rng, k2) for _ in range(400 if chk.thorough else 40)]
-        bad = srvcommon.run_histories(chk, 'c12', hs, nontrivial=nontrivial)
-        c03.report(chk, 'c12', hs, bad, lambda cfg, ops, mode: 'c12-msgpack-%s-property' % mode)
+    k2 = server_hist.Knobs(n_ops=22, refuse=0.1, actions=0.0, serializer='msgpack')
+    k2.w.update({'junk': 1, 'binary': 1.5, 'event': 4, 'ack': 1.5, 'emit_cb': 1.5, 'session': 1})
+    hs2 = []
+    for _ in range(500 if chk.thorough else 45):
+        cfg, ops = server_hist.gen_history(rng, k2)
+        hs2.append(hostile_msgpack(rng, cfg, ops))
+    bad2 = srvcommon.run_histories(chk, 'c12', hs2, nontrivial=nontrivial)
+    c03.report(chk, 'c12', hs2, bad2, lambda cfg, ops, mode: 'c12-msgpack-%s-property' % mode)
+    # directed search / sample: bystander view with and without the offender
+    allh = hs + hs2
+    suspects = [i for i, _m, _c, _t in bad] + [len(hs) + i for i, _m, _c, _t in bad2]
+    sample = sorted(set(suspects[:10] + list(range(0, len(hs), max(1, len(hs) // 12))) +
+                        list(range(len(hs), len(allh), max(1, len(hs2) // 12)))))
+    bystander_check(chk, allh, sample)
     if not chk.violations:
         resource_guard(chk)
 
